@@ -152,7 +152,7 @@ def explore(
     max_paths: int = 10**9,
     seed: int = 0,
     n_samples: int = 3,
-    stop_on_refute: bool = True,
+    stop_on_refute: bool = False,
 ) -> Dict[str, Any]:
     """Explore all paths of ``fn(**symbolic, **cell)``.
 
@@ -275,7 +275,9 @@ def explore(
                                 ce["exception"] = repr(user_exc[0])[:500]
                                 ce["traceback"] = "".join(user_exc[1].format()[-6:])[-3000:]
                             res["counterexamples"].append(ce)
-                            breakout = stop_on_refute
+                            # keep exploring after a counterexample (it may be spurious and is
+                            # replayed by the parent anyway); stop after a handful
+                            breakout = stop_on_refute or len(res["counterexamples"]) >= 4
                 except IgnoreAttempt:
                     res["skipped"] += 1
                     status = None
